@@ -22,6 +22,7 @@ type Tables struct {
 	EmissionLoops []LoopSpec          `json:"emission_loops"`
 	Precede       []PrecedeSpec       `json:"precede"`
 	ConsumeReset  []ConsumeResetSpec  `json:"consume_reset"`
+	Nesting       []NestingSpec       `json:"nesting"`
 	Termination   TermSpec            `json:"termination"`
 	FuncProps     map[string][]string `json:"func_props"` // function key -> properties that depend on its termination
 	// E5
